@@ -612,7 +612,7 @@ func (g *Gen) rank() int {
 	return g.pick(9) - 2
 }
 
-var aggs = []string{"sum", "min", "max"}
+var aggs = []string{"sum", "min", "max", "default"}
 
 func (g *Gen) zsetOp() *Op {
 	k := g.key()
@@ -647,9 +647,9 @@ func (g *Gen) zsetOp() *Op {
 	case 14, 15:
 		return ZIncr(k, g.member(), g.score())
 	case 16, 17, 18:
-		return ZAlg(g.chance(0.5), aggs[g.pick(3)], g.keyList(3)...)
+		return ZAlg(g.chance(0.5), aggs[g.pick(len(aggs))], g.keyList(3)...)
 	case 19, 20, 21:
-		return ZStore(g.chance(0.5), aggs[g.pick(3)], g.key(), g.keyList(3)...)
+		return ZStore(g.chance(0.5), aggs[g.pick(len(aggs))], g.key(), g.keyList(3)...)
 	case 22:
 		return ZLen(k)
 	case 23, 24, 25:
